@@ -12,6 +12,7 @@ import (
 	"os"
 	"strconv"
 	"strings"
+	"sync"
 	"time"
 )
 
@@ -261,6 +262,10 @@ func verifSetInt[T ~int32 | ~uint32 | ~int64 | ~uint64 | ~int | ~uint](p *T, v u
 
 // verifBytesEqual: two byte slices of concrete length are equal (one term for the executor).
 func verifBytesEqual(a, b []byte) bool { return string(a) == string(b) }
+
+// verifCondBroadcasts / verifNeedsWaiter: ghost view of a condition variable (symbolic run only).
+func verifCondBroadcasts(c *sync.Cond) int      { return 0 }
+func verifNeedsWaiter(c *sync.Cond, since int) {}
 
 func verifResetLocks() {}
 func verifLockHookFrom(n int) {}
